@@ -158,6 +158,8 @@ func (s *supOFO) childStarted(cs supChildSpec, pid gen.PID) supAction {
 		return action
 	}
 
+	// nothing left to start: the rest is running or disabled
+	s.mode = 0 // normal
 	return action
 }
 
